@@ -1,8 +1,187 @@
+/- C09 driver ops: num.cmp / num.arith / num.bits / num.un / num.sort / num.clamp.
+   Numbers travel as 16-hex-digit IEEE bit patterns.  `Float` (C double, platform libm) is used
+   here only: as the "hardware" of the arithmetic model and as the reference for libm functions. -/
 import JrsVerif.Common.J
+import JrsVerif.Model.Num
 
 namespace JrsVerif.Drv.C09
-open Lean JrsVerif.J
+open Lean JrsVerif.J JrsVerif.Num
 
-def handle (_op : String) (_j : Json) : Option Json := none
+def hexVal (c : Char) : Option Nat :=
+  if '0' ≤ c ∧ c ≤ '9' then some (c.toNat - '0'.toNat)
+  else if 'a' ≤ c ∧ c ≤ 'f' then some (c.toNat - 'a'.toNat + 10)
+  else none
+
+def parseHex (s : String) : Option Nat :=
+  if s.length ≠ 16 then none
+  else s.toList.foldlM (fun acc c => do let v ← hexVal c; pure (acc * 16 + v)) 0
+
+def hexDigit (n : Nat) : Char :=
+  if n < 10 then Char.ofNat ('0'.toNat + n) else Char.ofNat ('a'.toNat + n - 10)
+
+def toHex (n : Nat) : String :=
+  String.ofList ((List.range 16).reverse.map (fun i => hexDigit ((n / 16 ^ i) % 16)))
+
+def showErr (e : Err) : String := "err:" ++ e.name
+
+/-- exact encoding of a decoded double; "inexact" must never appear -/
+def showD (d : D) : String :=
+  match encode d with
+  | some b => toHex b
+  | none => "inexact"
+
+/-- value only: both zeros print as +0 -/
+def showV (d : D) : String := showD ⟨if d.mag = 0 then false else d.neg, d.mag⟩
+
+def showRD : Except Err D → String
+  | .ok d => showD d
+  | .error e => showErr e
+
+def showBits : Except Err Nat → String
+  | .ok b => toHex b
+  | .error e => showErr e
+
+/-- an `i64` result converted `as f64` (round to nearest even) -/
+def ofI64 (r : Int) : D := ⟨decide (r < 0), Spec.roundMag (r.natAbs * U) 1⟩
+
+def showRI : Except Err Int → String
+  | .ok r => showD (ofI64 r)
+  | .error e => showErr e
+
+def bstr (b : Bool) : String := if b then "true" else "false"
+
+def fl (b : Nat) : Float := Float.ofBits b.toUInt64
+def bitsOf (f : Float) : Nat := f.toBits.toNat
+
+/-- the FPU: `+ - * /` from `Float`; `%` (C fmod, not available on `Float`) from the exact spec -/
+def hw (op : AOp) (a b : Nat) : Nat :=
+  match op with
+  | .add => bitsOf (fl a + fl b)
+  | .sub => bitsOf (fl a - fl b)
+  | .mul => bitsOf (fl a * fl b)
+  | .div => bitsOf (fl a / fl b)
+  | .mod =>
+    match decode a, decode b with
+    | some x, some y =>
+      match Spec.mod x y with
+      | .ok d => (encode d).getD 0x7ff8000000000000
+      | .error _ => 0x7ff8000000000000
+    | _, _ => 0x7ff8000000000000
+
+/-- libm function through the builtin return path -/
+def lib1 (f : Float → Float) (a : Nat) : String := showBits (builtinRet (bitsOf (f (fl a))))
+def lib2 (f : Float → Float → Float) (a b : Nat) : String :=
+  showBits (builtinRet (bitsOf (f (fl a) (fl b))))
+
+def PI_BITS : Nat := 0x400921fb54442d18
+def D180 : D := ⟨false, 180 * U⟩
+
+/-- `f64::to_radians` = `self * (PI / 180.0)`, `to_degrees` = `self * (180.0 / PI)` -/
+def scaleBy (a : D) (c : Except Err D) : Except Err D := do
+  let k ← c
+  Spec.mul a k
+
+def two (a b : Nat) : Option (D × D) := do
+  let x ← decode a
+  let y ← decode b
+  pure (x, y)
+
+def getHex (j : Json) (k : String) : Option Nat := do parseHex (← str? j k)
+
+def hexList (j : Json) (k : String) : Option (List Nat) := do
+  let a ← arr? j k
+  a.toList.mapM (fun x => do parseHex (← x.getStr?.toOption))
+
+def sobj (kvs : List (String × String)) : Json := obj (kvs.map (fun (k, v) => (k, Json.str v)))
+
+def handle (op : String) (j : Json) : Option Json :=
+  match op with
+  | "num.cmp" =>
+    match (do let a ← getHex j "a"; let b ← getHex j "b"; two a b) with
+    | none => some (bad "num.cmp: parse")
+    | some (x, y) =>
+      let m := sobj [("lt", bstr (opLt x y)), ("le", bstr (opLe x y)), ("gt", bstr (opGt x y)),
+                     ("ge", bstr (opGe x y)), ("eq", bstr (opEq x y)), ("ne", bstr (opNe x y)),
+                     ("peq", bstr (eqImpl x y)), ("seq", bstr (eqImpl x y))]
+      let lt := Spec.lt x y; let eq := Spec.eq x y; let gt := Spec.lt y x
+      let s := sobj [("lt", bstr lt), ("le", bstr (lt || eq)), ("gt", bstr gt),
+                     ("ge", bstr (gt || eq)), ("eq", bstr eq), ("ne", bstr (!eq)),
+                     ("peq", bstr eq), ("seq", bstr eq)]
+      some (obj [("model", m), ("spec", s)])
+  | "num.arith" =>
+    match (do let a ← getHex j "a"; let b ← getHex j "b"; let (x, y) ← two a b; pure (a, b, x, y)) with
+    | none => some (bad "num.arith: parse")
+    | some (a, b, x, y) =>
+      let mm := showV (Spec.max x y); let mn := showV (Spec.min x y)
+      let m := sobj [("add", showBits (arith hw .add a b)), ("sub", showBits (arith hw .sub a b)),
+                     ("mul", showBits (arith hw .mul a b)), ("div", showBits (arith hw .div a b)),
+                     ("mod", showBits (arith hw .mod a b)), ("modulo", showRD (Spec.modulo x y)),
+                     ("max", mm), ("min", mn),
+                     ("pow", lib2 Float.pow a b), ("atan2", lib2 Float.atan2 a b)]
+      let s := sobj [("add", showRD (Spec.add x y)), ("sub", showRD (Spec.sub x y)),
+                     ("mul", showRD (Spec.mul x y)), ("div", showRD (Spec.div x y)),
+                     ("mod", showRD (Spec.mod x y)), ("modulo", showRD (Spec.modulo x y)),
+                     ("max", mm), ("min", mn),
+                     ("pow", lib2 Float.pow a b), ("atan2", lib2 Float.atan2 a b)]
+      some (obj [("model", m), ("spec", s)])
+  | "num.bits" =>
+    match (do let a ← getHex j "a"; let b ← getHex j "b"; two a b) with
+    | none => some (bad "num.bits: parse")
+    | some (x, y) =>
+      let m := sobj [("and", showRI (bitOp .and x y)), ("or", showRI (bitOp .or x y)),
+                     ("xor", showRI (bitOp .xor x y)), ("shl", showRI (shlOp x y)),
+                     ("shr", showRI (shrOp x y))]
+      let s := sobj [("and", showRI (Spec.bit .and x y)), ("or", showRI (Spec.bit .or x y)),
+                     ("xor", showRI (Spec.bit .xor x y)), ("shl", showRI (Spec.shl x y)),
+                     ("shr", showRI (Spec.shr x y))]
+      some (obj [("model", m), ("spec", s)])
+  | "num.un" =>
+    match (do let a ← getHex j "a"; let x ← decode a; pure (a, x)) with
+    | none => some (bad "num.un: parse")
+    | some (a, x) =>
+      let (fm, fe) := Spec.frexp x
+      let pi := (decode PI_BITS).getD default
+      let common : List (String × String) := [
+        ("neg", showD (Spec.neg x)), ("abs", showD (Spec.abs x)), ("sign", showD (Spec.sign x)),
+        ("floor", showD (Spec.floor x)), ("ceil", showD (Spec.ceil x)), ("round", showD (Spec.round x)),
+        ("isInteger", bstr (Spec.isInteger x)), ("isDecimal", bstr (!Spec.isInteger x)),
+        ("deg2rad", showRD (scaleBy x (Spec.div pi D180))),
+        ("rad2deg", showRD (scaleBy x (Spec.div D180 pi))),
+        ("sqrt", if x.val < 0 then showErr .type else lib1 Float.sqrt a),
+        ("log", lib1 Float.log a), ("log2", lib1 Float.log2 a), ("log10", lib1 Float.log10 a),
+        ("exp", lib1 Float.exp a), ("sin", lib1 Float.sin a), ("cos", lib1 Float.cos a),
+        ("tan", lib1 Float.tan a), ("asin", lib1 Float.asin a), ("acos", lib1 Float.acos a),
+        ("atan", lib1 Float.atan a),
+        ("mantissa", showD fm), ("exponent", toString fe)]
+      let m := sobj (("bitnot", showD (ofI64 (bitNot x))) :: common)
+      -- reference for `~` : defined on the i64 range; outside, the saturating cast is what the
+      -- code does and no independent meaning is claimed
+      let s := sobj (("bitnot", showD (ofI64 (bitNot x))) :: common)
+      some (obj [("model", m), ("spec", s)])
+  | "num.observe" =>
+    some (obj [("observed", Json.bool ((bool? j "holds").getD false))])
+  | "num.clamp" =>
+    match (do let a ← getHex j "x"; let b ← getHex j "lo"; let c ← getHex j "hi"
+              let x ← decode a; let lo ← decode b; let hi ← decode c; pure (x, lo, hi)) with
+    | none => some (bad "num.clamp: parse")
+    | some (x, lo, hi) =>
+      let r := sobj [("clamp", showV (Spec.clamp x lo hi))]
+      some (obj [("model", r), ("spec", r)])
+  | "num.sort" =>
+    match (do let xs ← hexList j "xs"; let ps ← hexList j "probes"
+              let xs ← xs.mapM decode; let ps ← ps.mapM decode; pure (xs, ps)) with
+    | none => some (bad "num.sort: parse")
+    | some (xs, ps) =>
+      let sv (l : List D) : Json := ofStrs (l.map showV)
+      let setM := setImpl xs
+      let m := obj [("sort", sv (sortImpl xs)), ("uniq", sv (uniqImpl xs)), ("set", sv setM),
+                    ("member", ofStrs (ps.map (fun p => bstr (setMemberImpl p setM))))]
+      let specUniq : List D := xs.foldr (fun x acc => match acc with
+        | y :: _ => if x.val = y.val then x :: acc.tail else x :: acc
+        | [] => [x]) []
+      let s := obj [("sort", sv (Spec.sort xs)), ("uniq", sv specUniq), ("set", sv (Spec.set xs)),
+                    ("member", ofStrs (ps.map (fun p => bstr (Spec.mem p xs))))]
+      some (obj [("model", m), ("spec", s)])
+  | _ => none
 
 end JrsVerif.Drv.C09
